@@ -20,6 +20,7 @@ func init() {
 	verifRegister("HarnessRaft_Roles", HarnessRaft_Roles)
 	verifRegister("HarnessRaft_HandleMsgDeep", HarnessRaft_HandleMsgDeep)
 	verifRegister("HarnessRaft_RolesDeep", HarnessRaft_RolesDeep)
+	verifRegister("HarnessRaft_ClientApply", HarnessRaft_ClientApply)
 }
 
 var rfClientID int32 = 19 // 6*NumServers+1, set by rfNew
@@ -90,6 +91,22 @@ func rfNew(n int, self int32) *rfSys {
 	mk("s2", AServerAppendEntries, self+2*N, []string{"idx=idx1", "srvId=srvId1"})
 	mk("s3", AServerAdvanceCommitIndex, self+3*N, []string{"newCommitIndex", "srvId=srvId2"})
 	mk("s4", AServerBecomeLeader, self+4*N, []string{"srvId=srvId3"})
+	// the client
+	{
+		cid := rfNum(rfClientID)
+		allReqs := ec.specEvalDef(ec.specSuccessorsOf("Init")[0], "AllReqs")
+		cfg := append([]distsys.MPCalContextConfigFn{distsys.SetFairnessCounter(d.oracle)}, consts...)
+		cfg = append(cfg,
+			distsys.EnsureArchetypeRefParam("net", &specMapped{d: d, name: "network", kind: mmBagFIFO, bound: 4}),
+			distsys.EnsureArchetypeRefParam("netLen", &specMapped{d: d, name: "network", kind: mmBagLen}),
+			distsys.EnsureArchetypeRefParam("fd", &specMapped{d: d, name: "fd", kind: mmEitherBool}),
+			distsys.EnsureArchetypeRefParam("reqCh", &specMapped{d: d, name: "reqCh", kind: mmOneOf, choices: allReqs}),
+			distsys.EnsureArchetypeRefParam("respCh", g("respCh")),
+			distsys.EnsureArchetypeRefParam("timeout", &specMapped{d: d, name: "timeout", kind: mmEitherBool, path: []tla.Value{cid}}))
+		ctx := distsys.NewMPCalContext(cid, AClient, cfg...)
+		distsys.VerifPreRun(ctx)
+		s.procs["c0"] = &specProc{ctx: ctx, arch: "AClient", self: cid, perProcess: true, pcVar: "pc", locals: []string{"leader=leader0", "req", "resp", "reqIdx"}}
+	}
 	return s
 }
 
@@ -401,6 +418,88 @@ func rfRoles(n int) {
 		if label == "serverRequestVoteLoop" {
 			verifAssert(rfGet(post, "currentTerm", 1).AsNumber() == rfGet(pre, "currentTerm", 1).AsNumber()+1 && rfGet(post, "votedFor", 1).AsNumber() == 1 && rfGet(post, "state", 1).AsString() == "candidate",
 				"C08 election start: the term is incremented, the server votes for itself and becomes candidate")
+		}
+	}
+	verifReach("end")
+}
+
+// C08/C02 (and the mechanisms C09 rests on): applying committed entries and answering the client, receiving a message,
+// and the client's three labels, from arbitrary typed states.
+func HarnessRaft_ClientApply() {
+	verifUnwind(1000000, false)
+	rfMaxLog = 2
+	n := 3
+	s := rfNew(n, 1)
+	which := verifChoose("label", 5)
+	key := []string{"s3", "s0", "c0", "c0", "c0"}[which]
+	label := []string{"applyLoop", "serverLoop", "clientLoop", "sndReq", "rcvResp"}[which]
+	p := s.procs[key]
+	var pre *specState
+	cid := rfNum(rfClientID)
+	setC := func(name string, v tla.Value) { pre.put(name, specPut(pre.get(name), []tla.Value{cid}, v)) }
+	bagOf := func(msgs ...tla.Value) tla.Value { return setToBag(tla.MakeSet(msgs...)) }
+	switch label {
+	case "applyLoop":
+		pre, _ = s.arbitrary("log commit sm")
+		nc := rfRange("newCommitIndex", 0, int32(rfGet(pre, "log", 1).AsTuple().Len()))
+		pre.put("newCommitIndex", specPut(pre.get("newCommitIndex"), []tla.Value{p.self}, rfNum(nc)))
+	case "serverLoop":
+		pre, _ = s.arbitrary("")
+		m := rfRec(rfS("mtype"), rfS("rvp"), rfS("mterm"), rfNum(rfRange("mterm", 1, 4)), rfS("mvoteGranted"), tla.MakeBool(verifNondetBool("granted")),
+			rfS("msource"), rfNum(int32(2+verifChoose("source", n-1))), rfS("mdest"), rfNum(1))
+		msgs := []tla.Value{m}
+		if verifChoose("second", 2) == 1 {
+			msgs = append(msgs, rfRec(rfS("mtype"), rfS("cgq"), rfS("mcmd"), rfRec(rfS("idx"), rfNum(1), rfS("type"), rfS("get"), rfS("key"), rfS("k")), rfS("msource"), cid, rfS("mdest"), rfNum(1)))
+		}
+		pre.put("network", specPut(pre.get("network"), []tla.Value{rfNum(1)}, specLink(bagOf(msgs...), tla.MakeBool(verifChoose("enabled", 2) == 1))))
+	default:
+		pre, _ = s.arbitrary("")
+		// (the client holds a leader guess whenever it waits for a response: sndReq picks one when it has none)
+		if label == "rcvResp" {
+			setC("leader0", rfNum(int32(1+verifChoose("leader", n))))
+		} else {
+			setC("leader0", rfNum(int32(verifChoose("leader", n+1))))
+		}
+		setC("reqIdx", rfNum(rfRange("reqIdx", 0, 3)))
+		req := rfCmd("req")
+		req = rfRec(rfS("type"), req.ApplyFunction(rfS("type")), rfS("key"), rfS("k"), rfS("value"), rfS("k"))
+		if verifChoose("req.get", 2) == 1 {
+			req = rfRec(rfS("type"), rfS("get"), rfS("key"), rfS("k"))
+		}
+		setC("req", req)
+		if label == "rcvResp" && verifChoose("mailbox", 2) == 1 {
+			mt := []string{"cpp", "cgp"}[verifChoose("resp.type", 2)]
+			resp := rfRec(rfS("mtype"), rfS(mt), rfS("msuccess"), tla.MakeBool(verifNondetBool("resp.success")),
+				rfS("mresponse"), rfRec(rfS("idx"), rfNum(rfRange("resp.idx", 0, 3)), rfS("key"), rfS([]string{"k", "other"}[verifChoose("resp.key", 2)]), rfS("value"), rfS("k"), rfS("ok"), tla.ModuleTRUE),
+				rfS("mleaderHint"), rfNum(int32(1+verifChoose("hint", n))), rfS("msource"), rfNum(1), rfS("mdest"), rfNum(int32([]int32{rfClientID, 1}[verifChoose("resp.dest", 2)])))
+			pre.put("network", specPut(pre.get("network"), []tla.Value{cid}, specLink(bagOf(resp), tla.ModuleTRUE)))
+		}
+	}
+	s.setPC(pre, key, label)
+	posts := s.relation(key, label, pre)
+	for _, post := range posts {
+		switch label {
+		case "applyLoop":
+			s.commonLemmas(label, pre, post)
+			c0, c1 := rfGet(pre, "commitIndex", 1).AsNumber(), rfGet(post, "commitIndex", 1).AsNumber()
+			news := rfNewMsgs(pre, post, rfClientID)
+			verifAssert((c1 == c0 && len(news) == 0) || (c1 == c0+1 && len(news) == 1), "C08 applyLoop: entries are applied one at a time, and the client is answered exactly when its entry is applied")
+			if c1 == c0+1 && len(news) == 1 {
+				cmd := rfGet(pre, "log", 1).AsTuple().Get(int(c1) - 1).ApplyFunction(rfS("cmd"))
+				r := news[0].ApplyFunction(rfS("mresponse"))
+				sm1 := rfGet(post, "sm", 1)
+				want, has := sm1.AsFunction().Get(cmd.ApplyFunction(rfS("key")))
+				inDom := tla.ModuleInSymbol(cmd.ApplyFunction(rfS("key")), rfGet(post, "smDomain", 1)).AsBool()
+				verifAssert(r.ApplyFunction(rfS("idx")).Equal(cmd.ApplyFunction(rfS("idx"))) && r.ApplyFunction(rfS("key")).Equal(cmd.ApplyFunction(rfS("key"))) &&
+					r.ApplyFunction(rfS("ok")).AsBool() == inDom && (!inDom || (has && r.ApplyFunction(rfS("value")).Equal(want))),
+					"C08 applyLoop: the answer carries the request's idx and key and the value the state machine holds once the entry is applied (Gets are answered from the log order)")
+			}
+		case "rcvResp":
+			r0, r1 := pre.get("respCh"), post.get("respCh")
+			if !specEq(r0, r1) {
+				verifAssert(r1.ApplyFunction(rfS("mresponse")).ApplyFunction(rfS("idx")).Equal(pre.get("reqIdx").ApplyFunction(cid)) && r1.ApplyFunction(rfS("msuccess")).AsBool(),
+					"C08 client: only a successful response that carries the index of the outstanding request is delivered to the application")
+			}
 		}
 	}
 	verifReach("end")
